@@ -201,9 +201,13 @@ HSendFrame(e, f) ==
    connection and everything still queued on it is requeued with one more try *)
 TcpWriteFailure(fd) ==
   LET s == fdi[fd].srv
-      hit(id) == \/ (q[id].st = "inflight" /\ q[id].fd = fd)
-                 \/ (q[id].st = "tosend" /\ q[id].tcp /\ q[id].qsrv = s)
-  IN /\ q' = DropDoneProbes([id \in DOMAIN q |-> IF hit(id) THEN Requeued(q[id], TRUE, "ECONNREFUSED") ELSE q[id]])
+      sure == {id \in DOMAIN q : \/ (q[id].st = "inflight" /\ q[id].fd = fd)
+                                 \/ (q[id].st = "tosend" /\ q[id].tcp /\ q[id].qsrv = s)}
+      \* queries waiting for some TCP connection whose server the trace did not reveal (a second query queued on a
+      \* connection that was being established): each of them may or may not be on this one -- every case is explored
+      maybe == {id \in DOMAIN q : q[id].st = "tosend" /\ q[id].tcp /\ q[id].qsrv = 0}
+  IN \E extra \in SUBSET maybe :
+     /\ q' = DropDoneProbes([id \in DOMAIN q |-> IF id \in sure \cup extra THEN Requeued(q[id], TRUE, "ECONNREFUSED") ELSE q[id]])
      /\ srv' = FailServer(s)
      /\ owedF' = [owedF EXCEPT ![s] = @ + 1]
      /\ fdi' = [fdi EXCEPT ![fd].err = TRUE]
